@@ -272,6 +272,9 @@ class NTuple(Collection):
     @classmethod
     def new(cls, values: List[NadaType]) -> "NTuple":
         """Constructs a new NTuple."""
+        # The n-tuple is what it is built from: a copy, so that the caller changing
+        # its list afterwards cannot add or remove components.
+        values = list(values)
         return NTuple(
             values=values,
             child=NTupleNew(
@@ -342,6 +345,9 @@ class Object(Collection):
     @classmethod
     def new(cls, values: Dict[str, NadaType]) -> "Object":
         """Constructs a new Object."""
+        # The object is what it is built from: a copy, so that the caller changing
+        # its dict afterwards cannot add or remove fields.
+        values = dict(values)
         return Object(
             values=values,
             child=ObjectNew(
